@@ -1,21 +1,37 @@
 import Model.C10
 import Proofs.C10
 import Proofs.C10.Link
+import Proofs.C10.Prov
 /-!
 # C10 — batched quorum writes: success only with quorum on every key, and always finish
 
 Property theorems about the model of `ring/batch.go` (`Model/C10.lean`). Common hypotheses:
 
-* `hg : GoodGets gets` — every replica set has a tolerance `0 ≤ MaxErrors < #replicas` (what
-  `Ring.Get` returns; then `minSuccess ≥ 1` and `minSuccess + maxFailures = #replicas`);
+* `hg : GoodGets gets` — every replica set has a tolerance `0 ≤ MaxErrors < #replicas` (then
+  `minSuccess ≥ 1` and `minSuccess + maxFailures = #replicas`). This is what `Ring.Get` returns:
+  `PC02.goodGets_of_lookups` (lean/Props/C02.lean) DISCHARGES it for every list whose entries are `.err`
+  or stem from a successful C01 lookup. It is necessary for an arbitrary `DoBatchRing`:
+  `tolerance_hang_witness`, `empty_set_hang_witness`;
 * `hp : prepare icount cancelAt gets = .ok p` — the sequential prefix did not return early (every
-  early return, including the empty key list, is covered by `empty_keys_return` / `early_cleanup_once`);
+  early return, including the empty key list, is covered by `early_return_cleanup_once`,
+  `early_return_why`, `empty_keys_return`);
 * `hr : run (initSt p out) evs = some s` — `s` is reached by the schedule `evs`, an ARBITRARY
   interleaving of the atomic events of all goroutines, the cleanup goroutine, the end of the
   caller's context and the caller's `select`.
 
 So every theorem holds for all replica sets, all outcome assignments `out`, all completion orders
 and all micro-interleavings (no bound on keys, replicas or steps).
+
+**Custom goroutine spawner (`o.Go`).** The spawner is not a component of the model: the model lets every
+goroutine start at any time after the spawn loop (`start k` is enabled whenever thread `k` is idle) and
+lets the cleanup goroutine run whenever `wg = 0`. Whatever a spawner does — run the closure inline,
+queue it behind a bounded worker pool, delay it — only RESTRICTS when `start k` / `cleanup` happen, so
+the schedules it can produce are a subset of the interleavings quantified over here. A spawner that
+runs or queues the cleanup closure before the callbacks is covered too: `cleanup` is enabled only
+when `wg = 0` (`cleanup_once_after_all`), i.e. the closure blocks in `wg.Wait()`. What is assumed of a
+spawner is fairness (every submitted closure is eventually run); a pool whose only worker is blocked in
+the cleanup closure's `wg.Wait()` while callbacks are still queued would violate it. The correspondence
+check exercises five spawners (default, wrapping, inline, pools of 1 and 2 workers).
 -/
 namespace PC10
 open C10 PfC10
@@ -59,21 +75,34 @@ theorem complete (hg : GoodGets gets) (hp : prepare icount ca gets = .ok p)
     (s.nDone = 0 ∧ s.nErr = 1 ∧ ∃ (i : Nat) (it : Item), s.items[i]? = some it ∧ it.succeeded < it.minSuccess) :=
   complete' (inv_of_run hg hp hr) hf (items_ne_of_run hp hr)
 
-/-- The value sent on `err` is an error that some replica's callback actually returned (never `nil`,
-also on the path that loads it back from the tracker). -/
+/-- The value sent on `err` (hence any error `DoBatch` returns, `return_value_sound`) is never `nil`: it
+is the error returned by a replica `a` OF A KEY THAT FAILED — key `i` is among the indexes `a` was called
+with, `a`'s callback has returned an error, key `i`'s failure condition has fired (one family above the
+tolerance, or its last replica counted) and key `i` has not reached, and never will reach, its quorum.
+Also on the path that loads the error back from the tracker (`it.err.Load()`). -/
 theorem err_provenance (hg : GoodGets gets) (hp : prepare icount ca gets = .ok p)
     (hr : run (initSt p out) evs = some s) (e : Option Nat) (he : s.sentErr = some e) :
-    ∃ a, e = some a ∧ ReturnedErr s a :=
-  (inv_of_run hg hp hr).p.sent e he
+    ∃ (a i : Nat) (it : Item), e = some a ∧ ReturnedErr s a ∧ i ∈ get p.calls a ∧ s.items[i]? = some it ∧
+      (it.maxFailures < it.failedClient ∨ it.maxFailures < it.failedServer ∨ it.remaining ≤ 0) ∧
+      it.succeeded < it.minSuccess :=
+  err_provenance_key' hg hp hr e he
 
-/-- As soon as the failures of one family exceed the tolerance of a key (or its last replica has
-been counted without quorum), the failure signal has been sent or some goroutine is on the straight
-path (`rpcsFailed.Inc`, load, send — none of which can block) that sends it. -/
+/-- As soon as the failures of one family exceed the tolerance of a key (or its last replica has been
+counted without quorum): the failure signal has been sent; or the one goroutine that won
+`rpcsFailed.Inc() == 1` is on the straight path (load,) send; or nobody has incremented `rpcsFailed`
+yet and some goroutine is about to (the first one to do so wins). None of these steps can block
+(`sends_never_block`, `no_deadlock`). -/
 theorem early_failure (hg : GoodGets gets) (hp : prepare icount ca gets = .ok p)
     (hr : run (initSt p out) evs = some s) (i : Nat) (it : Item) (hit : s.items[i]? = some it)
     (h : it.maxFailures < it.failedClient ∨ it.maxFailures < it.failedServer ∨ it.remaining ≤ 0) :
-    s.nErr = 1 ∨ ∃ t ∈ s.thr, signalling t :=
+    s.nErr = 1 ∨ (∃ t ∈ s.thr, sending t) ∨ (s.failed = 0 ∧ ∃ t ∈ s.thr, claiming t) :=
   early_failure' (inv_of_run hg hp hr) hit h
+
+/-- At most one goroutine is ever on the sending path, and none once the signal is out
+(`sendEC t = 1` iff `sending t`). -/
+theorem sender_unique (hg : GoodGets gets) (hp : prepare icount ca gets = .ok p)
+    (hr : run (initSt p out) evs = some s) : s.nErr + sumT sendEC s.thr ≤ 1 :=
+  sending_unique' (inv_of_run hg hp hr)
 
 /-- Conversely the failure signal is claimed only for a key that can never reach its quorum any more. -/
 theorem failure_only_if_doomed (hg : GoodGets gets) (hp : prepare icount ca gets = .ok p)
@@ -112,6 +141,24 @@ theorem threads_are_groups (hp : prepare icount ca gets = .ok p) :
     funext x; rfl
   rw [this, List.map_id]
 
+/-- Each selected replica's callback is invoked AT MOST ONCE in any schedule, exactly once as soon as
+its goroutine has left the idle stage (in particular when it has finished), and with exactly its keys:
+goroutine `k` is the one created for `p.calls[k] = (a, idx)` — address `a`, index list `idx`
+(`group_exact`: one entry per selected address, the increasing indexes of the keys it serves). -/
+theorem each_replica_called_once (hp : prepare icount ca gets = .ok p)
+    (hr : run (initSt p out) evs = some s) (k a : Nat) (idx : List Nat) (hk : p.calls[k]? = some (a, idx)) :
+    (initSt p out).thr[k]? = some { id := a, out := out a, todo := idx } ∧
+    ∃ t, s.thr[k]? = some t ∧ t.id = a ∧ evs.count (.start k) ≤ 1 ∧
+      (evs.count (.start k) = 1 ↔ t.st ≠ .idle) := by
+  have h0 : (initSt p out).thr[k]? = some { id := a, out := out a, todo := idx } := by
+    simp [initSt, mkThreads, hk]
+  obtain ⟨t, h1, h2, h3⟩ := start_count evs _ s hr k _ h0
+  have e0 : started ({ id := a, out := out a, todo := idx } : Thread) = 0 := rfl
+  rw [e0] at h3
+  refine ⟨h0, t, h1, h2, ?_, ?_⟩
+  · by_cases hi : t.st = .idle <;> simp [started, hi] at h3 <;> omega
+  · by_cases hi : t.st = .idle <;> simp [started, hi] at h3 <;> simp [hi, h3]
+
 /-! ### cleanup -/
 
 /-- Cleanup runs at most once, only after every callback goroutine has finished (wait-group counter
@@ -130,11 +177,21 @@ theorem cleanup_once_after_all (hg : GoodGets gets) (hp : prepare icount ca gets
     · simp at h
   · intro h; simp [h]
 
-/-- On every early-return path (`InstancesCount ≤ 0`, context ended, `Get` failed, and the repaired
-empty-key path) cleanup runs exactly once, before the return, and no callback is invoked. -/
-theorem early_cleanup_once (e : Early) :
-    (earlyTrace e).count .cleanup = 1 ∧ earlyTrace e = [.cleanup, .ret e] := by
-  cases e <;> exact ⟨by decide, rfl⟩
+/-- Whenever the prefix returns early — for ALL inputs and at every `return` site of the modelled
+prefix (`InstancesCount ≤ 0`, periodic context check, `Get` failure, last context check, empty key list)
+— cleanup has run exactly once and no callback was invoked. (The counters are written at each site of
+`Model.C10.keyLoop` / `prepareWith` as the Go code does it there; the oracle derives the expected trace
+of early cases from them, so a site that forgot or doubled its `Cleanup()` breaks this theorem, and a
+Go site that does breaks the correspondence.) -/
+theorem early_return_cleanup_once (r : EarlyRet) (h : prepare icount ca gets = .error r) :
+    r.cleanups = 1 ∧ r.calls = 0 :=
+  prepare_early h
+
+/-- ... and it returns early only for one of the four documented reasons. -/
+theorem early_return_why (r : EarlyRet) (h : prepare icount ca gets = .error r) :
+    (r.why = .noInstances ∧ icount ≤ 0) ∨ (r.why = .ctx ∧ ca.isSome = true) ∨ (r.why = .get ∧ GetRes.err ∈ gets) ∨
+    (r.why = .emptyOk ∧ gets = []) :=
+  prepare_early_why h
 
 /-! ### returning -/
 
@@ -173,32 +230,55 @@ theorem returns_when_all_done (hg : GoodGets gets) (hp : prepare icount ca gets 
     (hret : s.ret = none) : (step s .recvDone).isSome = true ∨ (step s .recvErr).isSome = true :=
   returns_when_all_done' (inv_of_run hg hp hr) hf (items_ne_of_run hp hr) hret
 
-/-- An empty key list returns at once, after exactly one cleanup and without calling anyone: with the
-"no instances" error, with the context's error if it has already ended, and with `nil` otherwise. -/
+/-- An empty key list returns at once, after exactly one cleanup and without calling anyone (no `Get`
+either): with the "no instances" error, with the context's error if it has already ended, and with
+`nil` otherwise — whatever `InstancesCount` and the context are. -/
 theorem empty_keys_return (icount : Int) (ca : Option Nat) :
     prepare icount ca [] =
-      .error (if icount ≤ 0 then .noInstances else if cancelled ca 0 then .ctx else .emptyOk, 0) ∧
-    ∀ e, (earlyTrace e).count .cleanup = 1 :=
-  ⟨empty_prepare_now icount ca, fun e => by cases e <;> decide⟩
+      .error { why := if icount ≤ 0 then .noInstances else if cancelled ca 0 then .ctx else .emptyOk,
+               gets := 0, cleanups := 1, calls := 0 } :=
+  empty_prepare_now icount ca
 
-/-- ALWAYS FINISHES, every key list (also the empty one), every schedule: either the prefix returns
-at once (one cleanup, then the return), or — in every state reached by any interleaving — the caller's
-`select` is enabled as soon as all replica calls have been recorded or the context has ended. -/
+/-- ALWAYS FINISHES, every key list (also the empty one), every schedule. Either the prefix returns at
+once (exactly one cleanup, no call). Or, from EVERY state reached by any interleaving in which all
+replica callbacks have returned (nothing is assumed about how far the goroutines got with `record`) or
+the context has ended, and the caller has not returned yet: there is a continuation consisting only of
+atomic actions of the goroutines (none of which can block) after which the caller's `select` is enabled.
+With `no_deadlock` and `goroutines_terminate` (every schedule has finitely many goroutine events) this
+is: under a fair scheduler the call returns. -/
 theorem always_finishes (hg : GoodGets gets) :
-    (∃ e g, prepare icount ca gets = .error (e, g) ∧ earlyTrace e = [.cleanup, .ret e]) ∨
+    (∃ r, prepare icount ca gets = .error r ∧ r.cleanups = 1 ∧ r.calls = 0) ∨
     (∃ p, prepare icount ca gets = .ok p ∧ ∀ (out : Nat → Outcome) (evs : List Ev) (s : St),
-      run (initSt p out) evs = some s → s.ret = none → ((∀ t ∈ s.thr, t.st = .fin) ∨ s.ctx = true) →
-      (step s .recvDone).isSome = true ∨ (step s .recvErr).isSome = true ∨ (step s .recvCtx).isSome = true) := by
+      run (initSt p out) evs = some s → s.ret = none →
+      ((∀ t ∈ s.thr, t.st ≠ .idle ∧ t.st ≠ .inCall) ∨ s.ctx = true) →
+      ∃ (ticks : List Ev) (s' : St), (∀ e ∈ ticks, ∃ k, e = .tick k) ∧ run s ticks = some s' ∧
+        ((step s' .recvDone).isSome = true ∨ (step s' .recvErr).isSome = true ∨ (step s' .recvCtx).isSome = true)) := by
   cases hp : prepare icount ca gets with
-  | error eg => exact .inl ⟨eg.1, eg.2, rfl, rfl⟩
+  | error r => exact .inl ⟨r, rfl, prepare_early hp⟩
   | ok p =>
     refine .inr ⟨p, rfl, ?_⟩
     intro out evs s hr hret hcase
-    rcases hcase with hf | hc
-    · rcases returns_when_all_done' (inv_of_run hg hp hr) hf (items_ne_of_run hp hr) hret with h | h
+    rcases hcase with hcb | hc
+    · have hwf := wf_initSt hg hp out
+      have hreach := reach_of_run hr
+      obtain ⟨ticks, s', h1, h2, h3, h4, _⟩ := drain hwf _ s hreach (Nat.le_refl _) hcb
+      have hr' : run (initSt p out) (evs ++ ticks) = some s' := by
+        have : ∀ (l1 l2 : List Ev) (a b c : St), run a l1 = some b → run b l2 = some c → run a (l1 ++ l2) = some c := by
+          intro l1
+          induction l1 with
+          | nil => intro l2 a b c h1 h2; simp [run] at h1; subst h1; simpa using h2
+          | cons e es ih =>
+            intro l2 a b c h1 h2
+            simp only [run, List.cons_append] at h1 ⊢
+            split at h1
+            · rename_i a' he; exact ih l2 a' b c h1 h2
+            · simp at h1
+        exact this evs ticks _ s s' hr h2
+      refine ⟨ticks, s', h1, h2, ?_⟩
+      rcases returns_when_all_done' (inv_of_run hg hp hr') h3 (items_ne_of_run hp hr') (h4.trans hret) with h | h
       · exact .inl h
       · exact .inr (.inl h)
-    · exact .inr (.inr ((select_enabled' s hret).2.2 hc))
+    · exact ⟨[], s, ⟨fun e he => absurd he (by simp), rfl, .inr (.inr ((select_enabled' s hret).2.2 hc))⟩⟩
 
 /-- HISTORY — witness of defect D2 in the code before commit "fix: DoBatch with an empty key list never
 returns" (`preparePreFix`): the empty key list reached the `select` with no goroutine that could ever
@@ -252,6 +332,25 @@ theorem goroutines_terminate (s0 s : St) (evs : List Ev) (hr : run s0 evs = some
     (evs.filter isThreadEv).length + sumT mu s.thr ≤ sumT mu s0.thr :=
   thread_events_bounded evs s0 s hr
 
+/-! ### `GoodGets` is necessary (a `DoBatchRing` that is not a ring may violate it) -/
+
+/-- WITNESS: a replica set whose tolerance is not smaller than its size (`MaxErrors = 1`, one replica,
+so `minSuccess = 0`): the only replica acknowledges, every goroutine finishes, and neither `done` nor
+`err` is ever signalled — `rpcsPending` is decremented only when `succeeded` EQUALS `minSuccess`. The
+caller hangs until its context ends. (`Ring.Get` never returns such a set: `PC02.goodGets_of_lookups`.) -/
+theorem tolerance_hang_witness :
+    (prepare 1 none [.ok [0] 1]).toOption.bind (fun p =>
+      (run (initSt p (fun _ => .ok)) [.start 0, .ret 0, .tick 0, .tick 0, .cleanup]).map fun s =>
+        (s.thr.all (·.st == .fin), s.cleanup, s.ret, step s .recvDone, step s .recvErr)) =
+      some (true, 1, none, none, none) := by decide
+
+/-- WITNESS: an empty replica set (`minSuccess = 0`, nobody to call): no goroutine, no signal, hang. -/
+theorem empty_set_hang_witness :
+    (prepare 1 none [.ok [] 0]).toOption.bind (fun p =>
+      (run (initSt p (fun _ => .ok)) [.cleanup]).map fun s =>
+        (s.thr.length, s.cleanup, s.ret, step s .recvDone, step s .recvErr)) =
+      some (0, 1, none, none, none) := by decide
+
 /-! ### non-vacuity: concrete data meets the hypotheses -/
 
 /-- two keys over four replicas, tolerance 1 each -/
@@ -268,7 +367,7 @@ def exPrep : Prep := { items := [mkItem [0, 1, 2] 1, mkItem [1, 2, 3] 1],
 example : prepare 4 none exGets = .ok exPrep := by decide
 
 /-- the empty key list now returns `nil` at once -/
-example : prepare 3 none [] = .error (.emptyOk, 0) := by decide
+example : prepare 3 none [] = .error { why := .emptyOk, gets := 0, cleanups := 1, calls := 0 } := by decide
 
 def exOut : Nat → Outcome := fun a => if a = 0 then .server else .ok
 
